@@ -124,6 +124,9 @@ def plan(tier, seed):
     per = 500 if tier == "quick" else 4000
     for s in range(0, n, per):
         items.append({"kind": "rand", "start": s, "count": per})
+    for totals in (([65535, 65536], [65537, 131072]) if tier == "quick" else ([4095, 4096], [4097, 8192], [16384, 32768], [65535, 65536], [65537, 131072], [196608, 262144])):
+        items.append({"kind": "big", "totals": totals, "exhaustive": "text of 64 KiB multiples +-1 (ASCII / 2-byte / 3-byte filling) x ending {complete, cut short inside "
+                      "a 2-/3-/4-byte sequence, stray continuation byte} x {one frame, two fragments} x {recv, recv_data}"})
     # the same with the optional accelerator package present (websocket/_utils.py then validates with
     # wsaccel.utf8validator.Utf8Validator instead of its own table): stand-in sim/stubs/wsaccel
     ex = "with the wsaccel stand-in: catalogue + validator vs strict decoder for all byte strings of length <=2"
@@ -163,6 +166,19 @@ def expand(item, seed):
                                            "seed": 1, "then": then}
                             yield {"kind": kind, "cls": cls, "hex": p.hex(), "cuts": [cut] if kind == "text" and 0 < cut < len(p) or (kind == "text" and cut in (0, len(p)) and len(p)) else [],
                                    "skip_utf8": skip, "api": api, "sizes": [1], "seed": 1}
+    elif k == "big":
+        # long text (around the sizes a validator might treat block-wise): whole length x what it ends with
+        for total in item["totals"]:
+            for unit in ("61", "c3a9", "e282ac"):
+                for tail in ("", "e282", "c3", "f09f98", "e282ac", "80", "f09f9880"):
+                    tl = len(tail) // 2
+                    ul = len(unit) // 2
+                    if (total - tl) % ul:
+                        continue
+                    for cuts in ([], [total // 2 - (total // 2) % ul], [65536] if total > 65536 else []):
+                        for api in ("recv_data", "recv"):
+                            yield {"kind": "text", "cls": "big", "hex": tail, "rep": [unit, (total - tl) // ul], "cuts": cuts, "skip_utf8": False,
+                                   "api": api, "sizes": [], "seed": 1}
     elif k == "sweep":
         yield {"kind": "sweep", "len": item["len"], "lo": item["lo"], "hi": item["hi"]}
     else:
@@ -277,6 +293,12 @@ def _run(sc, choices=None):
         return _sweep(sc, res)
     try:
         p = bytes.fromhex(sc["hex"])
+        if sc.get("rep"):
+            # long payloads are written as (unit, count) + tail so that scenarios stay small
+            unit, count = bytes.fromhex(sc["rep"][0]), int(sc["rep"][1])
+            if not unit or not 0 <= count * len(unit) <= 600_000:
+                raise InvalidScenario("rep")
+            p = unit * count + p
         kind = sc["kind"]
         api = sc["api"]
         skip = bool(sc.get("skip_utf8"))
